@@ -83,3 +83,37 @@ package mpbgv
 //@   requires isntt(share.ShareToEncShare.Value) && mexp(share.ShareToEncShare.Value) == 0
 //@   ensures implies(isnil(err), sameval(ciphertextOut.MetaData.PlaintextMetaData.Scale, old(ct.MetaData.PlaintextMetaData.Scale)))
 //@   ensures implies(isnil(err), iff(ciphertextOut.MetaData.CiphertextMetaData.IsNTT, old(ct.MetaData.CiphertextMetaData.IsNTT)) && iff(ciphertextOut.MetaData.CiphertextMetaData.IsMontgomery, old(ct.MetaData.CiphertextMetaData.IsMontgomery)) && iff(ciphertextOut.MetaData.PlaintextMetaData.IsBatched, old(ct.MetaData.PlaintextMetaData.IsBatched)))
+
+// ---- encryption to shares (property C16, "share conversion ... preserve[s] the message"): a party's public
+// ---- share is its share of the key switch to the ZERO key MINUS the lift of the additive share it keeps -
+// ---- the same mask in both places, drawn once - so that the aggregate plus c0 decrypts to the message minus the
+// ---- sum of the additive shares.  The lift R_t -> R_Q is NAMED (uf_lift).
+//@ afunc EncToShareProtocol.GenShare
+//@   property C16
+//@   requires dist(e2s.KeySwitchProtocol.noiseSampler) == XSMUDGE
+//@   requires isntt(sk.Value.Q) && mexp(sk.Value.Q) == 1 && isntt(e2s.zero.Value.Q) && mexp(e2s.zero.Value.Q) == 1 && val(e2s.zero.Value.Q) == 0
+//@   requires len(ct.Value) >= 2 && ct.MetaData.CiphertextMetaData.IsNTT && isntt(ct.Value[1]) && mexp(ct.Value[1]) == 0 && len(publicShareOut.Value.Coeffs) >= 1 && len(ct.Value[1].Coeffs) >= 1
+//@   let smudge = fresh(XSMUDGE, old(draws(XSMUDGE)))
+//@   ensures val(publicShareOut.Value) == old(val(ct.Value[1])) * val(sk.Value.Q) + smudge - uf_lift(val(secretShareOut.Value))
+//@   ensures draws(XSMUDGE) == old(draws(XSMUDGE)) + 1
+
+// ---- ... and the party that finishes the conversion gets, as its additive share, its own mask PLUS the reduction
+// ---- to R_t of (aggregate + c0): the masked decryption (uf_q2t names the reduction R_Q -> R_t)
+//@ afunc EncToShareProtocol.GetShare#value
+//@   property C16
+//@   requires ct.MetaData.CiphertextMetaData.IsNTT && isntt(ct.Value[0]) && isntt(aggregatePublicShare.Value) && mexp(ct.Value[0]) == 0 && mexp(aggregatePublicShare.Value) == 0 && dom(ct.Value[0]) == 1 && dom(aggregatePublicShare.Value) == 1
+//@   requires iscoef(secretShare.Value) && mexp(secretShare.Value) == 0 && dom(secretShare.Value) == 0
+//@   requires len(ct.Value[0].Coeffs) >= 1 && len(aggregatePublicShare.Value.Coeffs) >= 1
+//@   ensures val(secretShareOut.Value) == old(val(secretShare.Value)) + uf_q2t(old(val(aggregatePublicShare.Value)) + old(val(ct.Value[0])))
+
+// ---- shares to encryption: a party's share is its share of the key switch FROM the zero key on the common
+// ---- reference polynomial (-crp * s_i + one smudging draw) PLUS the lift of its additive share
+//@ afunc ShareToEncProtocol.GenShare
+//@   property C16
+//@   requires dist(s2e.KeySwitchProtocol.noiseSampler) == XSMUDGE
+//@   requires isntt(sk.Value.Q) && mexp(sk.Value.Q) == 1 && isntt(s2e.zero.Value.Q) && mexp(s2e.zero.Value.Q) == 1 && val(s2e.zero.Value.Q) == 0
+//@   requires isntt(crp.Value) && dom(crp.Value) == 1 && mexp(crp.Value) == 0 && len(crp.Value.Coeffs) >= 1 && len(c0ShareOut.Value.Coeffs) >= 1
+//@   requires iscoef(secretShare.Value) && dom(secretShare.Value) == 0 && mexp(secretShare.Value) == 0
+//@   let smudge = fresh(XSMUDGE, old(draws(XSMUDGE)))
+//@   ensures implies(isnil(err), val(c0ShareOut.Value) == smudge - old(val(crp.Value)) * val(sk.Value.Q) + uf_lift(old(val(secretShare.Value))))
+//@   ensures implies(isnil(err), draws(XSMUDGE) == old(draws(XSMUDGE)) + 1)
